@@ -157,4 +157,383 @@ theorem hash_upgrade_sound (C : Crypto) (bs : Array Bytes) (wfork : Nat) (Signed
     · rw [shift_plain_ne n0 rest _ hi] at hv
       simp at hv
 
+/-- **seek section + upgrade** (no block, no hash section): the seek root is `verify_upgrade`'s extra node -/
+theorem seek_upgrade_sound (C : Crypto) (bs : Array Bytes) (wfork : Nat) (Signed : Bytes → Prop)
+    (t : Tree) (f : File) (pk : Bytes) (p : Proof) (s : DataSeek) (n0 : Node) (srest : List Node) (u : DataUpgrade) (cs' : Changeset)
+    (hb : p.block = none) (hh : p.hash = none) (hs : p.seek = some s) (hsn : s.nodes = n0 :: srest) (hu : p.upgrade = some u) (hcan : Canon n0.index)
+    (hcanon : ∀ l, t.changeset.roots.getLast? = some l → ∃ d o, l.index = Flat.index d o ∧ d ≤ 64)
+    (hunf : ∀ m sig, C.verify pk m sig = true → Signed m)
+    (hsig : ∀ m, Signed m → ∃ n, n ≤ bs.size ∧ m = RefTree.signableOf C (bs.extract 0 n) wfork)
+    (hlen : ∀ x, (C.tree x).length = 32) (hsize : bs.size < 2 ^ 64) (hwf : wfork < 2 ^ 64)
+    (hb1 : cs'.length < 2 ^ 64) (hb2 : p.fork < 2 ^ 64) (hT : u.start + u.length < 2 ^ 64)
+    (hauth : StoreAuthentic C bs t f)
+    (hv : t.verifyProof C f p pk = .ok cs') :
+    Collision C ∨ TreeCollision C ∨ ∃ d o, n0.index = Flat.index d o
+      ∧ ((n0.hash = (RefTree.node C bs d o).2
+          ∧ (n0.length = (RefTree.node C bs d o).1 → ∀ n ∈ srest, ∃ dn on, n = nodeAt C bs dn on))
+        ∨ (n0.hash = (RefTree.node C (bs.extract 0 cs'.length) d o).2
+          ∧ (n0.length = (RefTree.node C (bs.extract 0 cs'.length) d o).1 → ∀ n ∈ srest, ∃ dn on, n = nodeAt C (bs.extract 0 cs'.length) dn on))) := by
+  obtain ⟨d, o, _, hidx, hnew⟩ := canon_new n0.index hcan
+  unfold verifyProof at hv
+  simp only [hb, hh, hs, hu, verifyTree, untrustedOf, noSeekOf, hsn, List.isEmpty_cons, Option.isNone_none, Bool.true_and,
+    Bool.false_eq_true, ite_false, seekHalf, andThen, hnew, plainQueue_eq] at hv
+  have hi : n0.index = (iat d o).index := hidx
+  rw [shift_plain n0 srest _ hi] at hv
+  simp only [] at hv
+  cases hc : climb C ((plainQueue srest).length + 1) (plainQueue srest) (iat d o) n0 (n0 :: t.changeset.rnodes) with
+  | error e => rw [hc] at hv; simp at hv
+  | ok pr =>
+    obtain ⟨root, rn'⟩ := pr
+    rw [hc] at hv
+    simp only [] at hv
+    generalize hcs1 : ({ t.changeset with rnodes := rn' } : Changeset) = cs1 at hv
+    have hcs1r : cs1.roots = t.changeset.roots := by rw [← hcs1]
+    cases hvu : verifyUpgrade C p.fork u (some root) pk cs1 with
+    | error e => rw [hvu] at hv; simp at hv
+    | ok pr2 =>
+      obtain ⟨consumed, cs2⟩ := pr2
+      rw [hvu] at hv
+      simp only [] at hv
+      cases hcon : consumed with
+      | false =>
+        rw [hcon] at hv
+        simp only [Bool.false_eq_true, ite_false] at hv
+        cases hreq : t.requiredNode f root.index with
+        | error e => rw [hreq] at hv; simp at hv
+        | ok v =>
+          rw [hreq] at hv
+          simp only [] at hv
+          by_cases hne : v.hash ≠ root.hash
+          · simp [hne] at hv
+          · have heq : v.hash = root.hash := by simpa using hne
+            obtain ⟨hridx, hsound⟩ := climb_sound C bs srest _ d o n0 _ root rn' hc hidx
+            have hnode := requiredNode_node? t f _ v hreq
+            rw [hridx] at hnode
+            have hrh : root.hash = (RefTree.node C bs (d + srest.length) (o / 2 ^ srest.length)).2 := by
+              rw [← heq]; exact hauth _ _ _ hnode
+            rcases hsound hrh with hcol | ⟨h1, h2⟩
+            · exact Or.inl hcol
+            · exact Or.inr (Or.inr ⟨d, o, hidx, Or.inl ⟨h1, fun hl => (h2 hl).2⟩⟩)
+      | true =>
+        rw [hcon] at hv hvu
+        simp only [ite_true, Except.ok.injEq] at hv
+        subst hv
+        rcases upgrade_extra_auth C bs wfork Signed p.fork u root pk cs1 cs2 (fun l hl => hcanon l (by rw [← hcs1r]; exact hl))
+          hunf hsig hlen hsize hwf hb1 hb2 hT hvu with hcol | hcol | hrA
+        · exact Or.inl hcol
+        · exact Or.inr (Or.inl hcol)
+        · obtain ⟨hridx, hsound⟩ := climb_sound C (bs.extract 0 cs2.length) srest _ d o n0 _ root rn' hc hidx
+          rcases hsound (hrA _ _ hridx) with hcol | ⟨h1, h2⟩
+          · exact Or.inl hcol
+          · exact Or.inr (Or.inr ⟨d, o, hidx, Or.inr ⟨h1, fun hl => (h2 hl).2⟩⟩)
+
+/-- what a block + seek proof establishes about a log `B` -/
+def SecOK (C : Crypto) (B : Array Bytes) (b : DataBlock) (n0 : Node) (srest : List Node) : Prop :=
+  b.value = B.getD b.index [] ∧ (∀ n ∈ b.nodes, ∃ dn on, n = nodeAt C B dn on)
+    ∧ ∃ d o, n0.index = Flat.index d o ∧ n0.hash = (RefTree.node C B d o).2
+      ∧ (n0.length = (RefTree.node C B d o).1 → ∀ n ∈ srest, ∃ dn on, n = nodeAt C B dn on)
+
+/-- the tail of `SeekSound.block_seek_sound`, for any log in which the root of the block climb is authentic -/
+theorem block_seek_tail (C : Crypto) (B : Array Bytes) (b : DataBlock) (n0 : Node) (srest : List Node) (d o : Nat) (hidx : n0.index = Flat.index d o)
+    (rn0 rn1 rn2 : List Node) (sroot root : Node) (fs fb : Nat)
+    (hcs : climb C fs (plainQueue srest) (iat d o) n0 rn0 = .ok (sroot, rn1))
+    (hcb : climb C fb ⟨b.nodes, some sroot, b.nodes.length + 1⟩ (iat 0 b.index) (blockNode C (iat 0 b.index).index b.value)
+      (blockNode C (iat 0 b.index).index b.value :: rn1) = .ok (root, rn2))
+    (hroot : ∀ dd oo, root.index = Flat.index dd oo → root.hash = (RefTree.node C B dd oo).2) :
+    Collision C ∨ SecOK C B b n0 srest := by
+  obtain ⟨j, hj, hplain⟩ := climb_extra C sroot b.nodes _ _ _ _ root rn2 hcb
+  generalize hL : b.nodes.take j ++ sroot :: b.nodes.drop j = L at hplain
+  obtain ⟨hridx, _⟩ := climb_sound C B L _ 0 b.index _ _ root rn2 hplain rfl
+  simp only [Nat.zero_add] at hridx
+  have hrh : root.hash = (RefTree.node C B L.length (b.index / 2 ^ L.length)).2 := hroot _ _ hridx
+  have hix : (iat 0 b.index).index = Flat.index 0 b.index := rfl
+  rw [hix] at hplain
+  rcases block_sound C B b.index b.value L _ _ root rn2 hplain hrh with hcol | ⟨h1, _, h3⟩
+  · exact Or.inl hcol
+  · have hsin : sroot ∈ L := by rw [← hL]; simp
+    obtain ⟨dn, on, hsr⟩ := h3 sroot hsin
+    obtain ⟨hsidx, hssound⟩ := climb_sound C B srest _ d o n0 _ sroot rn1 hcs hidx
+    have hpos : Flat.index dn on = Flat.index (d + srest.length) (o / 2 ^ srest.length) := by
+      rw [← hsidx, hsr]; rfl
+    obtain ⟨e1, e2⟩ := index_inj _ _ _ _ hpos
+    have hsh : sroot.hash = (RefTree.node C B (d + srest.length) (o / 2 ^ srest.length)).2 := by
+      rw [hsr, e1, e2]; rfl
+    have hbn : ∀ n ∈ b.nodes, ∃ dn on, n = nodeAt C B dn on := by
+      intro n hn
+      apply h3 n
+      rw [← hL]
+      have := List.take_append_drop j b.nodes
+      rw [← this] at hn
+      rcases List.mem_append.mp hn with h | h
+      · exact List.mem_append.mpr (Or.inl h)
+      · exact List.mem_append.mpr (Or.inr (List.mem_cons_of_mem _ h))
+    rcases hssound hsh with hcol | ⟨g1, g2⟩
+    · exact Or.inl hcol
+    · exact Or.inr ⟨h1, hbn, d, o, hidx, g1, fun hl => (g2 hl).2⟩
+
+/-- **block + seek + upgrade in one proof**: the seek root waits in the block climb's queue, the block's root in
+    `verify_upgrade`'s; the block, every node of the block section and the seek section are the writer's — of its log,
+    or of its signed prefix of the adopted length when the upgrade consumed the block's root -/
+theorem block_seek_upgrade_sound (C : Crypto) (bs : Array Bytes) (wfork : Nat) (Signed : Bytes → Prop)
+    (t : Tree) (f : File) (pk : Bytes) (p : Proof) (b : DataBlock) (s : DataSeek) (n0 : Node) (srest : List Node) (u : DataUpgrade) (cs' : Changeset)
+    (hb : p.block = some b) (hs : p.seek = some s) (hsn : s.nodes = n0 :: srest) (hu : p.upgrade = some u) (hcan : Canon n0.index)
+    (hcanon : ∀ l, t.changeset.roots.getLast? = some l → ∃ d o, l.index = Flat.index d o ∧ d ≤ 64)
+    (hunf : ∀ m sig, C.verify pk m sig = true → Signed m)
+    (hsig : ∀ m, Signed m → ∃ n, n ≤ bs.size ∧ m = RefTree.signableOf C (bs.extract 0 n) wfork)
+    (hlen : ∀ x, (C.tree x).length = 32) (hsize : bs.size < 2 ^ 64) (hwf : wfork < 2 ^ 64)
+    (hb1 : cs'.length < 2 ^ 64) (hb2 : p.fork < 2 ^ 64) (hT : u.start + u.length < 2 ^ 64)
+    (hauth : StoreAuthentic C bs t f)
+    (hv : t.verifyProof C f p pk = .ok cs') :
+    Collision C ∨ TreeCollision C ∨ SecOK C bs b n0 srest ∨ SecOK C (bs.extract 0 cs'.length) b n0 srest := by
+  obtain ⟨d, o, _, hidx, hnew⟩ := canon_new n0.index hcan
+  have hnewb : Iter.new (b.index * 2) = iat 0 b.index := by rw [Nat.mul_comm]; exact new_even b.index
+  unfold verifyProof at hv
+  simp only [hb, hs, hu, verifyTree, untrustedOf, noSeekOf, hsn, List.isEmpty_cons, Option.isNone_some, Bool.false_and,
+    Bool.false_eq_true, ite_false, seekHalf, andThen, hnew, plainQueue_eq] at hv
+  have hi : n0.index = (iat d o).index := hidx
+  rw [shift_plain n0 srest _ hi] at hv
+  simp only [] at hv
+  cases hcs : climb C ((plainQueue srest).length + 1) (plainQueue srest) (iat d o) n0 (n0 :: t.changeset.rnodes) with
+  | error e => rw [hcs] at hv; simp at hv
+  | ok pr =>
+    obtain ⟨sroot, rn1⟩ := pr
+    rw [hcs] at hv
+    simp only [mainHalf, hnewb, andThen] at hv
+    have hq : NodeQueue.new b.nodes (some sroot) = ⟨b.nodes, some sroot, b.nodes.length + 1⟩ := by simp [NodeQueue.new]
+    rw [hq] at hv
+    simp only [] at hv
+    cases hcb : climb C (b.nodes.length + 1 + 1) ⟨b.nodes, some sroot, b.nodes.length + 1⟩ (iat 0 b.index)
+        (blockNode C (iat 0 b.index).index b.value) (blockNode C (iat 0 b.index).index b.value :: rn1) with
+    | error e => rw [hcb] at hv; simp at hv
+    | ok pr2 =>
+      obtain ⟨root, rn2⟩ := pr2
+      rw [hcb] at hv
+      simp only [] at hv
+      generalize hcs1 : ({ t.changeset with rnodes := rn2 } : Changeset) = cs1 at hv
+      have hcs1r : cs1.roots = t.changeset.roots := by rw [← hcs1]
+      cases hvu : verifyUpgrade C p.fork u (some root) pk cs1 with
+      | error e => rw [hvu] at hv; simp at hv
+      | ok pr3 =>
+        obtain ⟨consumed, cs2⟩ := pr3
+        rw [hvu] at hv
+        simp only [] at hv
+        cases hcon : consumed with
+        | false =>
+          rw [hcon] at hv
+          simp only [Bool.false_eq_true, ite_false] at hv
+          cases hreq : t.requiredNode f root.index with
+          | error e => rw [hreq] at hv; simp at hv
+          | ok v =>
+            rw [hreq] at hv
+            simp only [] at hv
+            by_cases hne : v.hash ≠ root.hash
+            · simp [hne] at hv
+            · have heq : v.hash = root.hash := by simpa using hne
+              have hnode := requiredNode_node? t f _ v hreq
+              rcases block_seek_tail C bs b n0 srest d o hidx _ rn1 rn2 sroot root _ _ hcs hcb
+                (fun dd oo hio => by rw [← heq]; exact hauth dd oo v (by rw [← hio]; exact hnode)) with hcol | hok
+              · exact Or.inl hcol
+              · exact Or.inr (Or.inr (Or.inl hok))
+        | true =>
+          rw [hcon] at hv hvu
+          simp only [ite_true, Except.ok.injEq] at hv
+          subst hv
+          rcases upgrade_extra_auth C bs wfork Signed p.fork u root pk cs1 cs2 (fun l hl => hcanon l (by rw [← hcs1r]; exact hl))
+            hunf hsig hlen hsize hwf hb1 hb2 hT hvu with hcol | hcol | hrA
+          · exact Or.inl hcol
+          · exact Or.inr (Or.inl hcol)
+          · rcases block_seek_tail C (bs.extract 0 cs2.length) b n0 srest d o hidx _ rn1 rn2 sroot root _ _ hcs hcb hrA with hcol | hok
+            · exact Or.inl hcol
+            · exact Or.inr (Or.inr (Or.inr hok))
+
+/-- what a hash + seek proof establishes about a log `B` (the conclusion of `SeekSound.hash_seek_sound`) -/
+def HSOK (C : Crypto) (B : Array Bytes) (hsec : DataHash) (m0 : Node) (hrest : List Node) (n0 : Node) (srest : List Node) : Prop :=
+  ∃ dh oh d o, hsec.index = Flat.index dh oh ∧ n0.index = Flat.index d o ∧
+    ((∃ sroot : Node, sroot.index = hsec.index ∧ sroot.hash = (RefTree.node C B dh oh).2 ∧ n0.hash = (RefTree.node C B d o).2
+        ∧ (n0.length = (RefTree.node C B d o).1 → ∀ n ∈ srest, ∃ dn on, n = nodeAt C B dn on))
+      ∨ (m0.index = hsec.index ∧ m0.hash = (RefTree.node C B dh oh).2
+        ∧ (m0.length = (RefTree.node C B dh oh).1 → (∀ n ∈ hrest, ∃ dn on, n = nodeAt C B dn on)
+            ∧ (Collision C ∨ (n0.hash = (RefTree.node C B d o).2
+              ∧ (n0.length = (RefTree.node C B d o).1 → ∀ n ∈ srest, ∃ dn on, n = nodeAt C B dn on))))))
+
+/-- tail of `hash_seek_sound` when the seek root is the requested node itself -/
+theorem hash_seek_tail1 (C : Crypto) (B : Array Bytes) (hsec : DataHash) (m0 : Node) (hrest : List Node) (n0 : Node) (srest : List Node)
+    (dh oh d o : Nat) (hidxh : hsec.index = Flat.index dh oh) (hidx : n0.index = Flat.index d o)
+    (rn0 rn1 rn2 : List Node) (sroot root : Node) (fs fb : Nat)
+    (hcs : climb C fs (plainQueue srest) (iat d o) n0 rn0 = .ok (sroot, rn1))
+    (hx' : sroot.index = Flat.index dh oh)
+    (hcb : climb C fb (plainQueue (m0 :: hrest)) (iat dh oh) sroot (sroot :: rn1) = .ok (root, rn2))
+    (hroot : ∀ dd oo, root.index = Flat.index dd oo → root.hash = (RefTree.node C B dd oo).2) :
+    Collision C ∨ HSOK C B hsec m0 hrest n0 srest := by
+  obtain ⟨hsidx, hssound⟩ := climb_sound C B srest _ d o n0 _ sroot rn1 hcs hidx
+  obtain ⟨hridx, hsound⟩ := climb_sound C B (m0 :: hrest) _ dh oh sroot _ root rn2 hcb hx'
+  rcases hsound (hroot _ _ hridx) with hcol | ⟨h1, _⟩
+  · exact Or.inl hcol
+  · have hpos : Flat.index dh oh = Flat.index (d + srest.length) (o / 2 ^ srest.length) := by rw [← hsidx, hx']
+    obtain ⟨e1, e2⟩ := index_inj _ _ _ _ hpos
+    have hsh : sroot.hash = (RefTree.node C B (d + srest.length) (o / 2 ^ srest.length)).2 := by rw [← e1, ← e2]; exact h1
+    rcases hssound hsh with hcol | ⟨g1, g2⟩
+    · exact Or.inl hcol
+    · exact Or.inr ⟨dh, oh, d, o, hidxh, hidx, Or.inl ⟨sroot, by rw [hx', hidxh], h1, g1, fun hl => (g2 hl).2⟩⟩
+
+/-- tail of `hash_seek_sound` when the hash section starts with the requested node -/
+theorem hash_seek_tail2 (C : Crypto) (B : Array Bytes) (hsec : DataHash) (m0 : Node) (hrest : List Node) (n0 : Node) (srest : List Node)
+    (dh oh d o : Nat) (hidxh : hsec.index = Flat.index dh oh) (hidx : n0.index = Flat.index d o)
+    (rn0 rn1 rn2 : List Node) (sroot root : Node) (fs fb : Nat)
+    (hcs : climb C fs (plainQueue srest) (iat d o) n0 rn0 = .ok (sroot, rn1))
+    (hm' : m0.index = Flat.index dh oh)
+    (hcb : climb C fb ⟨hrest, some sroot, hrest.length + 1⟩ (iat dh oh) m0 (m0 :: rn1) = .ok (root, rn2))
+    (hroot : ∀ dd oo, root.index = Flat.index dd oo → root.hash = (RefTree.node C B dd oo).2) :
+    Collision C ∨ HSOK C B hsec m0 hrest n0 srest := by
+  obtain ⟨hsidx, hssound⟩ := climb_sound C B srest _ d o n0 _ sroot rn1 hcs hidx
+  obtain ⟨j, hj, hplain⟩ := climb_extra C sroot hrest _ _ _ _ root rn2 hcb
+  generalize hL : hrest.take j ++ sroot :: hrest.drop j = L at hplain
+  obtain ⟨hridx, hsound⟩ := climb_sound C B L _ dh oh m0 _ root rn2 hplain hm'
+  rcases hsound (hroot _ _ hridx) with hcol | ⟨h1, h2⟩
+  · exact Or.inl hcol
+  · refine Or.inr ⟨dh, oh, d, o, hidxh, hidx, Or.inr ⟨by rw [hm', hidxh], h1, fun hl => ?_⟩⟩
+    obtain ⟨_, h3⟩ := h2 hl
+    have hsin : sroot ∈ L := by rw [← hL]; simp
+    obtain ⟨dn, on, hsr⟩ := h3 sroot hsin
+    have hpos : Flat.index dn on = Flat.index (d + srest.length) (o / 2 ^ srest.length) := by rw [← hsidx, hsr]; rfl
+    obtain ⟨e1, e2⟩ := index_inj _ _ _ _ hpos
+    have hsh : sroot.hash = (RefTree.node C B (d + srest.length) (o / 2 ^ srest.length)).2 := by rw [hsr, e1, e2]; rfl
+    refine ⟨fun n hn => ?_, ?_⟩
+    · apply h3 n
+      rw [← hL]
+      have := List.take_append_drop j hrest
+      rw [← this] at hn
+      rcases List.mem_append.mp hn with h | h
+      · exact List.mem_append.mpr (Or.inl h)
+      · exact List.mem_append.mpr (Or.inr (List.mem_cons_of_mem _ h))
+    · rcases hssound hsh with hcol | ⟨g1, g2⟩
+      · exact Or.inl hcol
+      · exact Or.inr ⟨g1, fun hl2 => (g2 hl2).2⟩
+
+/-- the comparison with a stored node or the consumption by the upgrade authenticates the root of `verify_tree` -/
+theorem verifyProof_root_auth (C : Crypto) (bs : Array Bytes) (wfork : Nat) (Signed : Bytes → Prop)
+    (t : Tree) (f : File) (pk : Bytes) (p : Proof) (u : DataUpgrade) (root : Node) (cs1 cs' : Changeset)
+    (hvt : verifyTree C p.block p.hash p.seek t.changeset = .ok (some root, cs1)) (hroots : cs1.roots = t.changeset.roots)
+    (hu : p.upgrade = some u)
+    (hcanon : ∀ l, t.changeset.roots.getLast? = some l → ∃ d o, l.index = Flat.index d o ∧ d ≤ 64)
+    (hunf : ∀ m sig, C.verify pk m sig = true → Signed m)
+    (hsig : ∀ m, Signed m → ∃ n, n ≤ bs.size ∧ m = RefTree.signableOf C (bs.extract 0 n) wfork)
+    (hlen : ∀ x, (C.tree x).length = 32) (hsize : bs.size < 2 ^ 64) (hwf : wfork < 2 ^ 64)
+    (hb1 : cs'.length < 2 ^ 64) (hb2 : p.fork < 2 ^ 64) (hT : u.start + u.length < 2 ^ 64)
+    (hauth : StoreAuthentic C bs t f)
+    (hv : t.verifyProof C f p pk = .ok cs') :
+    Collision C ∨ TreeCollision C ∨ (∀ dd oo, root.index = Flat.index dd oo → root.hash = (RefTree.node C bs dd oo).2)
+      ∨ (∀ dd oo, root.index = Flat.index dd oo → root.hash = (RefTree.node C (bs.extract 0 cs'.length) dd oo).2) := by
+  unfold verifyProof at hv
+  rw [hvt] at hv
+  simp only [hu] at hv
+  cases hvu : verifyUpgrade C p.fork u (some root) pk cs1 with
+  | error e => rw [hvu] at hv; simp at hv
+  | ok pr3 =>
+    obtain ⟨consumed, cs2⟩ := pr3
+    rw [hvu] at hv
+    simp only [] at hv
+    cases hcon : consumed with
+    | false =>
+      rw [hcon] at hv
+      simp only [Bool.false_eq_true, ite_false] at hv
+      cases hreq : t.requiredNode f root.index with
+      | error e => rw [hreq] at hv; simp at hv
+      | ok v =>
+        rw [hreq] at hv
+        simp only [] at hv
+        by_cases hne : v.hash ≠ root.hash
+        · simp [hne] at hv
+        · have heq : v.hash = root.hash := by simpa using hne
+          have hnode := requiredNode_node? t f _ v hreq
+          exact Or.inr (Or.inr (Or.inl (fun dd oo hio => by rw [← heq]; exact hauth dd oo v (by rw [← hio]; exact hnode))))
+    | true =>
+      rw [hcon] at hv hvu
+      simp only [ite_true, Except.ok.injEq] at hv
+      subst hv
+      rcases upgrade_extra_auth C bs wfork Signed p.fork u root pk cs1 cs2 (fun l hl => hcanon l (by rw [← hroots]; exact hl))
+        hunf hsig hlen hsize hwf hb1 hb2 hT hvu with hcol | hcol | hrA
+      · exact Or.inl hcol
+      · exact Or.inr (Or.inl hcol)
+      · exact Or.inr (Or.inr (Or.inr hrA))
+
+/-- **hash + seek + upgrade in one proof** -/
+theorem hash_seek_upgrade_sound (C : Crypto) (bs : Array Bytes) (wfork : Nat) (Signed : Bytes → Prop)
+    (t : Tree) (f : File) (pk : Bytes) (p : Proof) (hsec : DataHash) (s : DataSeek) (m0 : Node) (hrest : List Node) (n0 : Node) (srest : List Node)
+    (u : DataUpgrade) (cs' : Changeset)
+    (hb : p.block = none) (hh : p.hash = some hsec) (hhn : hsec.nodes = m0 :: hrest) (hs : p.seek = some s) (hsn : s.nodes = n0 :: srest)
+    (hu : p.upgrade = some u) (hcan : Canon n0.index) (hcanh : Canon hsec.index)
+    (hcanon : ∀ l, t.changeset.roots.getLast? = some l → ∃ d o, l.index = Flat.index d o ∧ d ≤ 64)
+    (hunf : ∀ m sig, C.verify pk m sig = true → Signed m)
+    (hsig : ∀ m, Signed m → ∃ n, n ≤ bs.size ∧ m = RefTree.signableOf C (bs.extract 0 n) wfork)
+    (hlen : ∀ x, (C.tree x).length = 32) (hsize : bs.size < 2 ^ 64) (hwf : wfork < 2 ^ 64)
+    (hb1 : cs'.length < 2 ^ 64) (hb2 : p.fork < 2 ^ 64) (hT : u.start + u.length < 2 ^ 64)
+    (hauth : StoreAuthentic C bs t f)
+    (hv : t.verifyProof C f p pk = .ok cs') :
+    Collision C ∨ TreeCollision C ∨ HSOK C bs hsec m0 hrest n0 srest ∨ HSOK C (bs.extract 0 cs'.length) hsec m0 hrest n0 srest := by
+  obtain ⟨d, o, _, hidx, hnew⟩ := canon_new n0.index hcan
+  obtain ⟨dh, oh, _, hidxh, hnewh⟩ := canon_new hsec.index hcanh
+  cases hvt0 : verifyTree C p.block p.hash p.seek t.changeset with
+  | error e => unfold verifyProof at hv; rw [hvt0] at hv; cases hv
+  | ok prt =>
+    have hvt := hvt0
+    simp only [hb, hh, hs, verifyTree, untrustedOf, noSeekOf, hsn, List.isEmpty_cons, Option.isNone_some, Bool.false_and,
+      Bool.false_eq_true, ite_false, seekHalf, andThen, hnew, plainQueue_eq] at hvt
+    have hi : n0.index = (iat d o).index := hidx
+    rw [shift_plain n0 srest _ hi] at hvt
+    simp only [] at hvt
+    cases hcs : climb C ((plainQueue srest).length + 1) (plainQueue srest) (iat d o) n0 (n0 :: t.changeset.rnodes) with
+    | error e => rw [hcs] at hvt; simp at hvt
+    | ok pr =>
+      obtain ⟨sroot, rn1⟩ := pr
+      rw [hcs] at hvt
+      simp only [mainHalf, hnewh, andThen, hhn] at hvt
+      have hq : NodeQueue.new (m0 :: hrest) (some sroot) = ⟨m0 :: hrest, some sroot, (m0 :: hrest).length + 1⟩ := by simp [NodeQueue.new]
+      rw [hq] at hvt
+      simp only [NodeQueue.shift] at hvt
+      by_cases hx : sroot.index = (iat dh oh).index
+      · simp only [hx, ite_true] at hvt
+        have hq2 : (⟨m0 :: hrest, none, (m0 :: hrest).length + 1 - 1⟩ : NodeQueue) = plainQueue (m0 :: hrest) := by simp [plainQueue]
+        rw [hq2] at hvt
+        cases hcb : climb C ((m0 :: hrest).length + 1 - 1 + 1) (plainQueue (m0 :: hrest)) (iat dh oh) sroot (sroot :: rn1) with
+        | error e => rw [hcb] at hvt; simp at hvt
+        | ok pr2 =>
+          obtain ⟨root, rn2⟩ := pr2
+          rw [hcb] at hvt
+          simp only [Except.ok.injEq] at hvt
+          subst hvt
+          rcases verifyProof_root_auth C bs wfork Signed t f pk p u root _ cs' hvt0 rfl hu hcanon hunf hsig hlen hsize hwf hb1 hb2 hT hauth hv
+            with hcol | hcol | hA | hA
+          · exact Or.inl hcol
+          · exact Or.inr (Or.inl hcol)
+          · rcases hash_seek_tail1 C bs hsec m0 hrest n0 srest dh oh d o hidxh hidx _ rn1 rn2 sroot root _ _ hcs hx hcb hA with hcol | hok
+            · exact Or.inl hcol
+            · exact Or.inr (Or.inr (Or.inl hok))
+          · rcases hash_seek_tail1 C (bs.extract 0 cs'.length) hsec m0 hrest n0 srest dh oh d o hidxh hidx _ rn1 rn2 sroot root _ _ hcs hx hcb hA with hcol | hok
+            · exact Or.inl hcol
+            · exact Or.inr (Or.inr (Or.inr hok))
+      · simp only [hx, ite_false] at hvt
+        by_cases hm : m0.index = (iat dh oh).index
+        · simp only [hm, ne_eq, not_true_eq_false, ite_false] at hvt
+          have hq3 : (⟨hrest, some sroot, (m0 :: hrest).length + 1 - 1⟩ : NodeQueue) = ⟨hrest, some sroot, hrest.length + 1⟩ := by simp
+          rw [hq3] at hvt
+          cases hcb : climb C ((m0 :: hrest).length + 1 - 1 + 1) ⟨hrest, some sroot, hrest.length + 1⟩ (iat dh oh) m0 (m0 :: rn1) with
+          | error e => rw [hcb] at hvt; simp at hvt
+          | ok pr2 =>
+            obtain ⟨root, rn2⟩ := pr2
+            rw [hcb] at hvt
+            simp only [Except.ok.injEq] at hvt
+            subst hvt
+            rcases verifyProof_root_auth C bs wfork Signed t f pk p u root _ cs' hvt0 rfl hu hcanon hunf hsig hlen hsize hwf hb1 hb2 hT hauth hv
+              with hcol | hcol | hA | hA
+            · exact Or.inl hcol
+            · exact Or.inr (Or.inl hcol)
+            · rcases hash_seek_tail2 C bs hsec m0 hrest n0 srest dh oh d o hidxh hidx _ rn1 rn2 sroot root _ _ hcs hm hcb hA with hcol | hok
+              · exact Or.inl hcol
+              · exact Or.inr (Or.inr (Or.inl hok))
+            · rcases hash_seek_tail2 C (bs.extract 0 cs'.length) hsec m0 hrest n0 srest dh oh d o hidxh hidx _ rn1 rn2 sroot root _ _ hcs hm hcb hA with hcol | hok
+              · exact Or.inl hcol
+              · exact Or.inr (Or.inr (Or.inr hok))
+        · simp [hm] at hvt
+
 end HC.HashUpgradeSound
